@@ -80,6 +80,16 @@ func (k Kind) String() string {
 	return fmt.Sprintf("kind%d", int(k))
 }
 
+// Keyed reports whether the operation addresses one explicit key.
+func (k Kind) Keyed() bool {
+	switch k {
+	case MClear, MSize, MRange, CDeleteExpired, CRange, CItems, CClear, CCount, CDefaultExp, CSetDefaultExp, CSetCallback,
+		HAdvance, HBulkSet, HBulkDel, HBulkGet, PColdVisit, PColdLoad, KNone:
+		return false
+	}
+	return true
+}
+
 // IsMapKind reports whether k is an operation of the Map/MapOf API.
 func (k Kind) IsMapKind() bool { return k >= MLoad && k <= MRange }
 
